@@ -50,6 +50,8 @@ CORPUS = [
     "p.\n", "p.\np.\np.\n", "p :- true.\n", "p().\n", "p() :- q().\n", "p.\np(a).\np(a,b).\np(a,b,c).\n",
     "a.\nb.\na.\nb(x).\na.\n", "p_1.\np(a).\n", "p_1(a).\np(a,b).\np_1_0.\n", "p__.\n_p :- x.\n",
     # bodies that can never succeed
+    "p(a) :- fail.\np(b) :- fail.\n", "p(a) :- fail, q.\np(b, c) :- fail.\np(b) :- fail.\n", "p(1) :- fail.\np([]) :- fail.\np(f(a)) :- fail.\n",
+    "p(a) :- fail.\np(b) :- fail.\nq(X) :- p(X).\n", "p(a) :- ( fail ; fail ).\np(b) :- \\+ true.\n",
     "p :- fail.\n", "p :- q, fail.\n", "p :- fail, q.\n", "p :- \\+ true.\n", "p :- \\+ \\+ fail.\n",
     "p :- fail, fail.\n", "p :- fail ; fail.\n", "p :- ( fail -> true ; fail ).\n", "p :- ( true -> fail ).\n",
     "p :- !, fail.\n", "p :- fail, !.\n", "p :- q, !, fail.\n", "p(X) :- X = a, fail.\n", "p :- ( fail ; fail ), q.\n",
